@@ -567,7 +567,9 @@ func (e *Engine) invoke(st *State, fr *Frame, x *ssa.Call, recv Val, m *types.Fu
 	for i := 0; i < sig.Params().Len(); i++ {
 		names = append(names, sig.Params().At(i).Name())
 	}
-	return tupleOf(e.applyContractSig(st, fr, x, key, spec, sig, names, all))
+	res := e.applyContractSig(st, fr, x, key, spec, sig, names, all)
+	st.calls = append(st.calls, callRec{target: m.Name(), args: args, res: res, seq: len(st.calls)})
+	return tupleOf(res)
 }
 
 func tupleOf(res []Val) Val {
@@ -646,7 +648,9 @@ func (e *Engine) applyContract(st *State, fr *Frame, x *ssa.Call, callee *ssa.Fu
 	if spec.Trusted {
 		e.Assumptions["assumed contract: "+callee.String()] = true
 	}
-	return e.applyContractSig(st, fr, x, name, spec, callee.Signature, names, args)
+	res := e.applyContractSig(st, fr, x, name, spec, callee.Signature, names, args)
+	st.calls = append(st.calls, callRec{target: callee.Name(), args: args, res: res, seq: len(st.calls)})
+	return res
 }
 
 func (e *Engine) applyContractSig(st *State, fr *Frame, x *ssa.Call, name string, spec *FuncSpec, sig *types.Signature, names []string, args []Val) []Val {
@@ -675,6 +679,32 @@ func (e *Engine) applyContractSig(st *State, fr *Frame, x *ssa.Call, name string
 		g := pre.evalBool(r.E)
 		pre.goal = false
 		e.oblige(st, "pre@call", lbl, ord, g, "precondition of "+name+": "+r.Text, pos)
+	}
+	// callee with an atomic contract: for the caller the call is one atomic step at an arbitrary
+	// moment: the guarded state of the receiver is unknown before it (other goroutines) ...
+	var atomicPre map[string]*Term
+	var atomicRecv *VPtr
+	var atomicGuards []guardInfo
+	if len(spec.Atomic) > 0 && len(args) > 0 {
+		if rp, ok := args[0].(VPtr); ok && rp.L != nil && rp.L.Kind == LHeap && len(rp.L.Path) == 0 {
+			gs := e.guardsFor(rp.Elem)
+			if len(gs) > 0 {
+				for _, g := range gs {
+					gl := g
+					if n, ok := rp.Elem.(*types.Named); ok {
+						gl.typ = n
+					}
+					e.havocGuarded(st, rp.L.Ref, gl)
+					atomicGuards = append(atomicGuards, gl)
+				}
+				atomicPre = copyHeaps(st.heaps)
+				rpc := rp
+				atomicRecv = &rpc
+			}
+		}
+		if atomicRecv == nil {
+			panic(unsupported("call to " + name + " (atomic contract) on a receiver that is not a plain heap object"))
+		}
 	}
 	oldHeaps := copyHeaps(st.heaps)
 	oldAlloc := st.alloc
@@ -705,6 +735,17 @@ func (e *Engine) applyContractSig(st *State, fr *Frame, x *ssa.Call, name string
 		if i < len(spec.Results) {
 			env[spec.Results[i]] = rv
 		}
+	}
+	if atomicRecv != nil {
+		// ... and related to the state after it only by the atomic clauses
+		for _, gl := range atomicGuards {
+			e.havocGuarded(st, atomicRecv.L.Ref, gl)
+		}
+		ac := &specCtx{e: e, st: st, env: env, heaps: st.heaps, oldHeaps: atomicPre, pkg: pre.pkg, iters: e.freshIters(st, name)}
+		for _, a := range spec.Atomic {
+			st.assume(ac.evalBool(a.E))
+		}
+		st.cs = append(st.cs, critSection{mode: "call", mutex: name, pre: atomicPre, post: copyHeaps(st.heaps)})
 	}
 	for _, w := range spec.Witness {
 		wt := e.fresh(name+".w_"+w.Name, IntS) // existential witness
